@@ -259,19 +259,27 @@ def handlePublish (s : NodeSt) (peer ident : String) (space topic msgIdent : Str
         | (s', false) => (s', { statuses := s.sendStatus peer .rateLimited space [topic] true })
         | (s', true) => (s', { delivered := s'.fanout space topic, forwards := [true] })
 
-/-- the pool removes the stream (its tags go with it), then `onStreamClose` runs -/
-def closeStream (s : NodeSt) (sid : Nat) : NodeSt :=
-  let s1 : NodeSt := { s with pool := s.pool.filter (·.sid ≠ sid) }
-  match alookup sid s1.streams with
-  | none => s1
+/-- `streamPool.removeStream` up to the point where the hook is called: the pool forgets the stream
+(its tags go with it). This happens under the pool's own lock only, so it can fall between any two
+critical sections of the service — and inside `handleSubscribe` / `evictSpaceStreams` / `CloseSpace`,
+which hold `remoteMu` while they call into the pool. -/
+def poolRemove (s : NodeSt) (sid : Nat) : NodeSt := { s with pool := s.pool.filter (·.sid ≠ sid) }
+
+/-- `onStreamClose` (runs under `remoteMu`, after the pool removal) -/
+def onStreamClose (s : NodeSt) (sid : Nat) : NodeSt :=
+  match alookup sid s.streams with
+  | none => s
   | some r =>
     let remote := r.bySpace.foldl (fun (rem : List (String × Trie)) (sp : String × List String) =>
       match alookup sp.1 rem with
       | none => rem
       | some t =>
         let t' := t.removeAll sp.2
-        pruneSpace (aset sp.1 t' rem) sp.1) s1.remote
-    { s1 with remote := remote, streams := aerase sid s1.streams }
+        pruneSpace (aset sp.1 t' rem) sp.1) s.remote
+    { s with remote := remote, streams := aerase sid s.streams }
+
+/-- a stream close with nothing in between: pool removal, then the hook -/
+def closeStream (s : NodeSt) (sid : Nat) : NodeSt := (s.poolRemove sid).onStreamClose sid
 
 /-- body of the `for streamId, strm := range s.streams` loops of `evictSpaceStreams` / `CloseSpace`
 for one stream that is hit: the space entry goes, `total` drops by its size -/
